@@ -508,6 +508,55 @@ def run_prng(part, D):
         part.add("nontrivial", ("random", D))
 
 
+def run_real_prng(part):
+    """The real XorShift source (full 2^32 domain): results stay inside the requested range for extreme ranges, long
+    shuffles are permutations, and equal seeds give equal streams whatever Python's global random state is."""
+    from cspuz.generator import deterministic_random as dr
+    from cspuz.generator import srandom
+
+    ranges = [(3, 5), (-7, -7), (0, 2 ** 32 - 1), (-2 ** 31, 2 ** 31 - 1), (10 ** 9, 10 ** 9 + 2 ** 32 - 1), (255, 257), (0, 2 ** 31), (-5, 2 ** 31 + 3)]
+    for seed_value in range(4):
+        streams = []
+        for py_seed in (1, 2):
+            pyrandom.seed(py_seed)
+            srandom.use_deterministic_prng(True, seed_value)
+            out = []
+            try:
+                for (a, b) in ranges:
+                    for _ in range(300):
+                        part.count("transitions")
+                        v = srandom.randint(a, b)
+                        out.append(v)
+                        if not (a <= v <= b) or isinstance(v, bool) or not isinstance(v, int):
+                            part.violation("randint:outside-the-range(real-prng)", {"prng": "real", "a": a, "b": b, "seed": seed_value}, {"value": v})
+                            return
+                lst = list(range(300))
+                srandom.shuffle(lst)
+                if sorted(lst) != list(range(300)):
+                    part.violation("shuffle:not-a-permutation(real-prng)", {"prng": "real", "seed": seed_value}, {})
+                out.append(tuple(lst))
+                for _ in range(300):
+                    c = srandom.choice(lst)
+                    f = srandom.random()
+                    out.append((c, f))
+                    if c not in range(300) or not (0.0 <= f < 1.0):
+                        part.violation("choice-or-random:out-of-range(real-prng)", {"prng": "real", "seed": seed_value}, {"choice": c, "random": f})
+                        return
+                for (a, b) in ((1, 0), (0, 2 ** 32)):
+                    try:
+                        srandom.randint(a, b)
+                        part.violation("randint:invalid-domain-accepted(real-prng)", {"prng": "real", "a": a, "b": b}, {})
+                    except ValueError:
+                        pass
+            finally:
+                srandom.use_deterministic_prng(False)
+            streams.append(out)
+        if streams[0] != streams[1]:
+            part.violation("reproducibility:stream-depends-on-global-random-state", {"prng": "real", "seed": seed_value}, {})
+        else:
+            part.add("nontrivial", ("real-prng", seed_value))
+
+
 # ------------------------------------------------------------------ (D) reproducibility
 def repro_configs():
     from cspuz.generator import ArrayBuilder2D, Choice, SegmentationBuilder2D
@@ -580,7 +629,10 @@ def worker(shard, part):
         run_generate(part, name, pats[name][0], pats[name][1], steps, dev, D)
         part.sample({"generate_problem on": name, "max_steps": steps, "deviation bound": dev})
     elif what == "prng":
-        run_prng(part, shard[2])
+        if shard[2] == "real":
+            run_real_prng(part)
+        else:
+            run_prng(part, shard[2])
     elif what == "repro":
         cfgs = dict(repro_configs())
         run_repro(part, shard[2], cfgs[shard[2]], shard[3])
@@ -596,6 +648,7 @@ def main(tier, seed, only=None):
             shards.append(("generate", tier, name, steps, 3 if (tier == "quick" or steps == 3) else 4, 4))
     for D in (8, 12, 16, 60):
         shards.append(("prng", tier, D))
+    shards.append(("prng", tier, "real"))
     for name, _ in repro_configs():
         for s in range(8):
             shards.append(("repro", tier, name, s))
@@ -609,7 +662,7 @@ def main(tier, seed, only=None):
         "for all D^2 (offset, stride), so that every pair of consecutive draws takes every value pair; invariant per neighbour and "
         "immutability of all earlier problems.  (B) generate_problem with callback answer, uniqueness, pretest and raw PRNG on a choice tape, "
         "max_steps<=%d, <= %d deviations from the default answers.  (C) randint/choice/shuffle/random: exact distribution over every raw value "
-        "at D in {8,12,16,60} for a in -3..3 and every width <= D.  (D) 6 builder configurations x seeds 0..7 run under two global random "
+        "at D in {8,12,16,60} for a in -3..3 and every width <= D; with the real 2^32 source: range membership for extreme ranges, 300-element shuffles, stream equality across global random states.  (D) 6 builder configurations x seeds 0..7 run under two global random "
         "states with a quiet and a PRNG-consuming callback." % (", 3x3" if tier != "quick" else "", 2 if tier == "quick" else 3, 3 if tier == "quick" else 4),
     )
     run.assumptions = [
